@@ -245,6 +245,9 @@ def run_tierb(ctx, spec):
             c = gen_case(rng, pairs)
             if c['name'] in ('delete_id', 'bind', 'set_app_id', 'set_title', 'get_layer_surface', 'get_registry'):
                 c['name'] += '_x'
+            for a in c['args']:
+                if a['k'] == 's' and a['v'] is not None and len(a['v'].encode('utf-8')) > 30000:
+                    a['v'] = a['v'][:8000]             # the inferior's script reader takes tokens of at most 64 kB
             c['iface'] = 'vq_' + c['iface']      # the whole plugin runs in tier B: keep the random closures free of protocol semantics (bind, delete_id)
             # strings must survive a C string and gdb's target charset: no NUL, valid UTF-8 (the generator's strings are)
             seq = script.event(conns[c['side']], 1, c['dir'] == 'send', 0 if c['func'] in ('wl_closure_invoke', 'wl_closure_send') else 1,
